@@ -408,7 +408,7 @@ func runC14R10(c *Ctx, rule string) {
 	}
 	key := "failed-exchange-has-error|" + fnKey(do)
 	n, bad := 0, false
-	c.WalkShallow(rule, do, func(p *walk.Path) {
+	c.Walk(rule, do, func(p *walk.Path) { // helpers inlined: a constructor of the error Result keeps its store visible
 		if _, ok := p.Exit.(*ssa.Return); !ok || bad {
 			return
 		}
